@@ -379,7 +379,8 @@ def strat_pad(draw, tier):
     bs = draw(st.one_of(st.integers(1, 255), st.sampled_from([1, 8, 16, 255])))
     n = draw(st.one_of(st.integers(0, 3 * bs + 1), st.integers(0, 600)))
     return {"style": draw(st.sampled_from(["pkcs7", "x923", "iso7816"])), "bs": bs, "data": draw(gen.data_of(st.just(n))),
-            "mut": draw(st.sampled_from(["none", "none", "lastbyte", "lastbyte0", "lastbyte>bs", "inner", "trunc", "extend", "empty", "notaligned", "allzero", "no-marker"])),
+            "mut": draw(st.sampled_from(["none", "none", "lastbyte", "lastbyte0", "lastbyte>bs", "inner", "trunc", "extend", "empty", "notaligned", "allzero", "no-marker",
+                                         "crafted", "crafted", "crafted"])),
             "pos": draw(st.integers(0, 10 ** 6)), "val": draw(st.integers(1, 255))}
 
 
@@ -441,6 +442,22 @@ def run_pad(case, rec):
         b = bytearray(len(b))
     elif mut == "no-marker":
         b = bytearray(x if x != 0x80 else 0x81 for x in b)
+    elif mut == "crafted":
+        # not a damaged pad() output but a block-aligned string built to *look* padded, with a padding length chosen independently of the
+        # block size (0 .. 3 blocks): marker/count further back than one block, count 0, count > length ...
+        pl = case["pos"] % (3 * bs + 2)
+        total = max(bs, ((len(data) + pl) // bs + (1 if (len(data) + pl) % bs else 0)) * bs)
+        pl = min(pl, total)
+        if style == "pkcs7":
+            tail = bytes([pl % 256]) * pl
+        elif style == "x923":
+            tail = bytes(max(0, pl - 1)) + (bytes([pl % 256]) if pl else b"")
+        else:
+            tail = (b"\x80" + bytes(pl - 1)) if pl else b""
+        body = (data + bytes([(case["val"] | 1) & 0x7F]) * total)[:total - len(tail)]
+        if style == "iso7816":
+            body = bytes(x if x not in (0x80,) else 0x81 for x in body) if case["val"] % 2 else body
+        b = bytearray(body + tail)
     b = bytes(b)
     exp = ref_unpad(b, bs, style)
     k, r = libcall(Padding.unpad, b, bs, style, allowed=DOC_EXC, bucket="pad/%s/unpad" % style)
